@@ -1,6 +1,7 @@
 (* C04 — Escrow accounts always cover what the chain says it owes. *)
 From Coq Require Import ZArith List.
-From Verif Require Import Base.Dec Model.Escrow Model.Ledger Proofs.EscrowProofs.
+From Coq Require Import String.
+From Verif Require Import Base.Harness Base.Dec Model.Escrow Model.Ledger Proofs.EscrowProofs Proofs.LedgerProofs.
 Import ListNotations.
 Open Scope Z_scope.
 
@@ -39,3 +40,43 @@ Print Assumptions C04_unreported_tip_carries.
 Theorem C04_tbr_pays_whole_pool s cs s' : estep s (EPayTbr cs) = Some s' -> e_tbr s' = 0 /\ e_tips s' = e_tips s + e_tbr s.
 Proof. exact (tbr_pays_whole_pool s cs s'). Qed.
 Print Assumptions C04_tbr_pays_whole_pool.
+
+(* meaning of the executable specification that is evaluated on the real application after every operation
+   of the generated histories (all-message, payout-directed, dispute-directed): *)
+
+(* no withdrawal of credited rewards, fee refund or voter reward claim was refused for lack of funds *)
+Theorem C04_check_no_entitled_claim_refused before op signer res params after decs :
+  c04_step before (Step op signer res params after decs) = [] -> res <> 3.
+Proof. exact (c04_step_not_refused before op signer res params after decs). Qed.
+Print Assumptions C04_check_no_entitled_claim_refused.
+
+(* at every block boundary the oracle account equals the unpaid tips, the tips pool covers the selectors'
+   whole-unit credits and their credits up to 10^-12 unit, the bridge account is empty; the end blocker moved
+   coins only from the oracle account and the reward pool into the tips pool *)
+Theorem C04_check_block_boundary before signer params after decs :
+  c04_step before (Step "EndBlock" signer 0 params after decs) = [] ->
+  sp_oracle after = sp_oracle_owed after /\ sp_tips_floor after <= sp_tips after /\
+  sp_tips_scaled after - sp_tips after * P <= 1000000 /\ sp_bridge after = 0 /\
+  sp_oracle after + sp_tips after + sp_tbr after = sp_oracle before + sp_tips before + sp_tbr before /\
+  sp_oracle after <= sp_oracle before /\ sp_tbr after <= sp_tbr before.
+Proof. exact (c04_step_sound_endblock before signer params after decs). Qed.
+Print Assumptions C04_check_block_boundary.
+
+Theorem C04_check_tip before signer a after decs :
+  c04_step before (Step "Tip" signer 0 [a] after decs) = [] ->
+  sp_oracle after - sp_oracle before = a - Z.quot (a * 2) 100 /\
+  sp_oracle_owed after - sp_oracle_owed before = a - Z.quot (a * 2) 100.
+Proof. exact (c04_step_sound_tip before signer a after decs). Qed.
+Print Assumptions C04_check_tip.
+
+Theorem C04_check_withdraw before signer params after decs :
+  c04_step before (Step "WithdrawTip" signer 0 params after decs) = [] ->
+  sp_tips before - sp_tips after = (sp_bonded after + sp_notbonded after) - (sp_bonded before + sp_notbonded before) /\
+  sp_tips after < sp_tips before.
+Proof. exact (c04_step_sound_withdraw before signer params after decs). Qed.
+Print Assumptions C04_check_withdraw.
+
+(* no voter reward of a dispute was paid twice to the same account *)
+Theorem C04_check_reward_once init steps : c04_hist_check (Hist init steps) = [] -> NoDup (reward_claims steps).
+Proof. exact (c04_hist_once init steps). Qed.
+Print Assumptions C04_check_reward_once.
